@@ -97,6 +97,14 @@ def build_plain(scr, kind):
     base = ["-std=gnu99", "-D_DEFAULT_SOURCE", "-D_XOPEN_SOURCE=700", "-DHAVE_LIBIDN2", "-I" + os.path.join(d, "include"), "-I" + d]
     if kind == "tsan":
         cmd = [CC, "-O1", "-g", "-fsanitize=thread"] + base + srcs + [os.path.join(VERIF, "harness/mt.c"), "-lidn2", "-lpthread"]
+    elif kind in ("tsan-idnkit", "tsan-idn"):
+        # the other two back ends under ThreadSanitizer (their eav_setup / eav_free keep back-end state)
+        be = kind.split("-")[1]
+        shim = os.path.join(VERIF, "shims")
+        bsrcs = sorted(os.path.join(d, "src", x) for x in os.listdir(os.path.join(d, "src")) if x.endswith(".c"))
+        bsrcs += sorted(os.path.join(d, "partial", be, x) for x in os.listdir(os.path.join(d, "partial", be)) if x.endswith(".c"))
+        cmd = [CC, "-O1", "-g", "-fsanitize=thread", "-w", "-std=gnu99", "-D_DEFAULT_SOURCE", "-D_XOPEN_SOURCE=700", "-DHAVE_IDNKIT" if be == "idnkit" else "-DHAVE_LIBIDN",
+               "-I" + shim, "-I" + os.path.join(d, "include"), "-I" + d] + bsrcs + [os.path.join(shim, "shim_impl.c"), os.path.join(VERIF, "harness/mt.c"), "-lidn2", "-lpthread"]
     elif kind == "plain":
         cmd = ["gcc", "-O1", "-g"] + base + srcs + [os.path.join(VERIF, "harness/drive.c"), "-lidn2", "-Wl,--wrap=idn2_to_ascii_8z"]
     elif kind == "cli":
